@@ -12,7 +12,7 @@ from sim.machine import join_too_big
 from sim.seams import UUID_REGIMES
 
 COMMON = ["id", "u", "k", "kn", "x", "y", "g", "n", "s"]
-ALIAS_NAMES = ["Z1", "Z2", "B", "A", "t"]
+ALIAS_NAMES = ["Z1", "Z2", "B", "A", "t", "A_1", "B_1"]
 INTERRUPTIBLE = ("mutate", "summarize", "filter", "arrange", "group_by", "select", "rename", "join", "apply_pipe", "alias", "union", "slice_head")
 
 
@@ -349,7 +349,7 @@ class Generator:
     # producers
     # ------------------------------------------------------------------------------
     def g_src(self):
-        return {"op": "src", "T": self.rng.choice(list(W.TABLES))}
+        return {"op": "src", "T": self.rng.choice(["A", "B", "D", "A", "B", "D", "A_1"])}
 
     def g_ref(self):
         pt = self.pick_table()
